@@ -1251,6 +1251,12 @@ class AInterp(Interp):
     def parse_subscript(self, base, sl, st, frame, allow_raw=False):
         """Per base dimension: ('pt', lin) | ('sl', lo, hi) | ('ga', Vec/Rng) ; or None."""
         elts = list(sl.elts) if isinstance(sl, ast.Tuple) else [sl]
+        ell = [i for i, el in enumerate(elts) if isinstance(el, ast.Constant) and el.value is Ellipsis]
+        if len(ell) == 1 and len(elts) - 1 <= base.ndim:
+            fill = [ast.Slice(lower=None, upper=None, step=None) for _ in range(base.ndim - (len(elts) - 1))]
+            elts = elts[:ell[0]] + fill + elts[ell[0] + 1:]
+        elif ell:
+            return None
         if len(elts) > base.ndim:
             return None
         out = []
@@ -1453,10 +1459,10 @@ class AInterp(Interp):
                 return results + self.block(node.orelse, after, frame)
             return results + [(after, ("fall",))]
         if seq is None or not isinstance(seq, ListV):
-            return super()._for(node, st, frame)
+            return self._delegate_for(node, it, st, frame)
         n = list_len(seq)
         if n is None:
-            return super()._for(node, st, frame)
+            return self._delegate_for(node, it, st, frame)
         self.uid += 1
         var = Lin.sym("idx#%d" % self.uid)
         rng = Rng(ZERO, n)
@@ -1476,6 +1482,21 @@ class AInterp(Interp):
             return results + self.block(node.orelse, after, frame)
         return results + [(after, ("fall",))]
 
+    def _delegate_for(self, node, it, st, frame):
+        """The engine's loop handling, without evaluating the iterable a second time (inlined generators record their calls once)."""
+        self._iter_cache = (node.iter, it)
+        try:
+            return super()._for(node, st, frame)
+        finally:
+            self._iter_cache = None
+
+    def ev(self, e, st, frame):
+        c = getattr(self, "_iter_cache", None)
+        if c is not None and c[0] is e:
+            self._iter_cache = None
+            return c[1]
+        return super().ev(e, st, frame)
+
     def _exec_stmt(self, node, st, frame):
         if isinstance(node, ast.With) and len(node.items) == 1 and node.items[0].optional_vars is None:
             r = self._with_contextmanager(node, st, frame)
@@ -1489,6 +1510,22 @@ class AInterp(Interp):
                     if o_[0] == "fall":
                         s_.env[f_.target.id] = Opq("loop-var-after:" + f_.target.id)
                 return res
+            # an uninterpreted loop: whatever it stores into a buffer is unknown
+            for n_ in ast.walk(node):
+                tgt = None
+                if isinstance(n_, ast.Subscript) and isinstance(n_.ctx, ast.Store):
+                    tgt = n_.value
+                elif isinstance(n_, ast.AugAssign) and isinstance(n_.target, ast.Subscript):
+                    tgt = n_.target.value
+                if tgt is not None:
+                    try:
+                        b_ = self.ev(tgt, st, frame)
+                    except Exception:
+                        b_ = None
+                    while isinstance(b_, (View, Flat)):
+                        b_ = b_.base
+                    if isinstance(b_, Buf):
+                        b_.poisoned = "stores inside an uninterpreted while loop (line %s)" % node.lineno
         return super()._exec_stmt(node, st, frame)
 
     def _with_contextmanager(self, node, st, frame):
@@ -1538,7 +1575,7 @@ class AInterp(Interp):
     def _counting_while(self, node, st, frame):
         """``while i < hi: body; i += 1`` with ``i`` an integer set before the loop -> the equivalent ``for i in range(i, hi)``."""
         t = node.test
-        if node.orelse or not (isinstance(t, ast.Compare) and len(t.ops) == 1 and isinstance(t.ops[0], ast.Lt) and isinstance(t.left, ast.Name)):
+        if node.orelse or not (isinstance(t, ast.Compare) and len(t.ops) == 1 and isinstance(t.ops[0], (ast.Lt, ast.LtE)) and isinstance(t.left, ast.Name)):
             return None
         v = t.left.id
         if as_lin_val(st.env.get(v)) is None or not node.body:
@@ -1560,7 +1597,10 @@ class AInterp(Interp):
             for n_ in ast.walk(b_):
                 if isinstance(n_, ast.Name) and n_.id in bound_names and isinstance(n_.ctx, ast.Store):
                     return None
-        rng = ast.Call(func=ast.Name(id="range", ctx=ast.Load()), args=[ast.Name(id=v, ctx=ast.Load()), t.comparators[0]], keywords=[])
+        hi_ = t.comparators[0]
+        if isinstance(t.ops[0], ast.LtE):
+            hi_ = ast.BinOp(left=hi_, op=ast.Add(), right=ast.Constant(value=1))
+        rng = ast.Call(func=ast.Name(id="range", ctx=ast.Load()), args=[ast.Name(id=v, ctx=ast.Load()), hi_], keywords=[])
         f_ = ast.For(target=ast.Name(id=v, ctx=ast.Store()), iter=rng, body=rest or [ast.Pass()], orelse=[])
         ast.copy_location(f_, node)
         ast.fix_missing_locations(f_)
@@ -1721,6 +1761,8 @@ class AInterp(Interp):
         if ext == "numpy.concatenate" and args and isinstance(args[0], Tup):
             ax = as_lin_val(kwargs.get("axis", args[1] if len(args) > 1 else ZERO))
             parts = args[0].items
+            if ax is not None and ax.is_const() and ax.const < 0 and parts and isinstance(parts[0], Nd):
+                ax = ax + parts[0].ndim
             if ax is not None and ax.is_const() and parts and all(isinstance(p, Nd) for p in parts) \
                     and len({p.ndim for p in parts}) == 1 and 0 <= ax.const < parts[0].ndim:
                 return Cat(parts, int(ax.const))
